@@ -409,10 +409,30 @@ def run(tier):
                 ck.finding("R2.json-cycle-refusal", "R2.json-cycle-refusal/recursion", F.short_span(t[6]),
                            "the exporter recurses into an object without having tested / recorded it in the visited set: a cyclic value recurses until the stack overflows")
         ok = bool(removes)
+        # ... on every path that leaves the function after the object was recorded, error propagation aside (the whole call fails then): an early
+        # `return Ok(..)` in one arm leaves the object in the set, and a value that contains the same array twice is refused as cyclic
+        if ok and inserts:
+            rets = {bi for bi, bl in enumerate(ex.blocks) if bl["t"][0] == "ret"}
+            errs = {bi for bi, t in ex.calls() if (t[1].get("d") or "").endswith("::from_residual")}
+            for bi, bl in enumerate(ex.blocks):
+                for s_ in bl["s"]:
+                    if s_[0] == "a" and s_[1][0] == 0 and s_[2][0] == "agg" and isinstance(s_[2][1], dict) and s_[2][1].get("v") == "Err":
+                        errs.add(bi)
+            seen, work = set(), [b for b in inserts if isinstance(b, int)]
+            while work:
+                x = work.pop()
+                if x in seen or x in removes or x in errs:
+                    continue
+                seen.add(x)
+                if x in rets:
+                    ok = False
+                    break
+                work.extend(ex.succ(x))
         ck.instance("R2.json-cycle-refusal", "visited set restored on exit", F.short_span(ex.span), ok=ok)
         if not ok:
             ck.finding("R2.json-cycle-refusal", "R2.json-cycle-refusal/restore", F.short_span(ex.span),
-                       "the exporter never removes an object from the visited set: a value referenced twice (a DAG) is refused as cyclic")
+                       "the exporter can return successfully without removing the object it recorded from the visited set: a value referenced twice (a DAG, "
+                       "`const t = [1]; JSON.stringify({a: t, b: t})`) is refused as cyclic")
     # ---------------- R3 serialized JSON text is not rewritten by a structure-blind substitution
     ck.rule("R3.no-text-rewrite", "no function that serializes JSON text applies str::replace / replacen / replace_range to text (a pattern without a line break can occur inside a string value or key)", floor=2)
     for f, ser, reps in text_rewrites(fx, r"serde_json::(ser::)?to_(string|vec|writer)(_pretty)?$"):
